@@ -14,5 +14,7 @@ theorem order_Program_initTerminal : Tea.Gen.fact_order_Program_initTerminal = T
 theorem order_Program_disableMouse : Tea.Gen.fact_order_Program_disableMouse = Tea.Doc.fact_order_Program_disableMouse := rfl
 theorem order_Program_recoverFromPanic : Tea.Gen.fact_order_Program_recoverFromPanic = Tea.Doc.fact_order_Program_recoverFromPanic := rfl
 theorem calls : Tea.Gen.fact_calls = Tea.Doc.fact_calls := rfl
+theorem body_Program_initInput : Tea.Gen.fact_body_Program_initInput = Tea.Doc.fact_body_Program_initInput := rfl
+theorem body_Program_restoreInput : Tea.Gen.fact_body_Program_restoreInput = Tea.Doc.fact_body_Program_restoreInput := rfl
 
 end Tea.Props.Bridge.C05
